@@ -406,6 +406,9 @@ def split_all(tr, marks, shared_keys, cipher_cls):
     return msgs, problems, sizes
 
 
+_DEBUG_LOGGING = [False]
+
+
 def judge(ctx: Ctx, obs, ops, mode, seed):
     """The property on the captured byte stream, as seen by the reference controller."""
 
@@ -419,6 +422,8 @@ def judge(ctx: Ctx, obs, ops, mode, seed):
     cipher_cls = ref.Mock if mode == "mock" else ref.Real
     msgs, problems, sizes = split_all(T(obs["writes"]), obs["marks"], obs["shared"], cipher_cls)
     rep = {"kind": "script", "ops": ops, "mode": mode, "seed": seed}
+    if _DEBUG_LOGGING[0]:
+        rep["logging"] = "pyhap-debug"
     if problems:
         ctx.fail("C05:stream-not-wellformed", problems[0], rep)
         return msgs
@@ -622,6 +627,18 @@ def run(ctx: Ctx):
         # the transparent mock cipher is pure Python (slow on big payloads): big responses use real ChaCha
         scripts.append((ops_, "real" if big else rng.choice(["mock", "real"])))
     lines, impls, idx = [], [], []
+    # a bounded repeat with the pyhap logger at DEBUG (behaviour must not depend on the logging configuration)
+    from common import pyhap_debug_logging
+
+    with pyhap_debug_logging():
+        _DEBUG_LOGGING[0] = True
+        try:
+            for i, (ops, mode) in enumerate(scripts[:40:2]):
+                seed = ctx.seed * 100003 + 900000 + i
+                judge(ctx, run_script(ctx, hc, hp, ops, mode, seed), ops, mode, seed)
+                st.hit("op", "script-under-debug-logging")
+        finally:
+            _DEBUG_LOGGING[0] = False
     for i, (ops, mode) in enumerate(scripts):
         seed = ctx.seed * 100003 + i
         obs = run_script(ctx, hc, hp, ops, mode, seed)
@@ -695,7 +712,12 @@ def replay(ctx: Ctx, r):
             print("FAILS:", f.signature, f.description)
         print("verdict:", "property violated on this input" if ctx.failures else "holds on this input")
         return 1 if ctx.failures else 0
-    obs = run_script(ctx, hc, hp, r["ops"], r["mode"], r["seed"])
+    import contextlib
+
+    from common import pyhap_debug_logging
+
+    with pyhap_debug_logging() if r.get("logging") else contextlib.nullcontext():
+        obs = run_script(ctx, hc, hp, r["ops"], r["mode"], r["seed"])
     msgs = judge(ctx, obs, r["ops"], r["mode"], r["seed"])
     print("writes:", [(k, len(d)) for k, d in obs["writes"]])
     print("messages:", [(m[0], m[1], len(m[3])) for m in msgs])
